@@ -542,6 +542,8 @@ func Catalogue(skew time.Duration) []Defect {
 		{"auth-cname-empty", func(c *Case) { c.ACName = []string{} }},
 		{"auth-cname-type-only", func(c *Case) { c.ACNameType = 2 }},
 		{"auth-crealm-changed", func(c *Case) { c.ACRealm = "EVIL.REALM" }},
+		{"auth-crealm-case-changed", func(c *Case) { c.ACRealm = strings.ToLower(c.CRealm) }},
+		{"auth-crealm-prefix", func(c *Case) { c.ACRealm = c.CRealm[:len(c.CRealm)-1] }},
 		{"tkt-cname-two-components", func(c *Case) { c.CName = []string{"user1", "admin"} }},
 		{"cname-same-text-other-split", func(c *Case) { c.CName = []string{"user1", "admin"}; c.ACName = []string{"user1/admin"} }},
 		{"cname-same-text-other-split-2", func(c *Case) { c.CName = []string{"user1/admin"}; c.ACName = []string{"user1", "admin"} }},
